@@ -277,6 +277,8 @@ def fill_fn(spec, canary, canary_ids, log):
             if body[:kw].count("{") - body[:kw].count("}") != 1:
                 continue
             close = X.match_brace(masked, o)
+            if kind == "loop" and re.match(r"^\s*\}\s*$", masked[close + 1:]):
+                continue  # an infinite loop in tail position: nothing after it is reachable
             cid = len(canary_ids)
             canary_ids.append({"id": cid, "fn": spec["name"], "at": "after loop @%d" % kw})
             inserts.append((close + 1, "\nproof { if vx_canary(%d) { assert(false); } } // VX-CANARY %d\n" % (cid, cid)))
